@@ -375,6 +375,21 @@ Record LiveLaws : Prop := {
   ll_inserted : forall news ip c n, ip_ok c ip -> In n news -> In (no_id n) (alive M (p_insert M news ip c))
 }.
 
+(* the same laws in two groups: facts about which operations a primitive kills / creates
+   (StructLaws, proved for the heap model in ProofsLive.v) and the invariant part (InvLaws) *)
+Record StructLaws : Prop := {
+  sl_survive : forall p c x, In x (alive M c) -> ~ In x (kills p c) -> In x (alive M (run_prim p c));
+  sl_leaf : forall c o x, has_regions M c o = false -> In x (subops M c o) -> x = o;
+  sl_inserted : forall news ip c n, ip_ok c ip -> In n news -> In (no_id n) (alive M (p_insert M news ip c))
+}.
+Record InvLaws : Prop := {
+  il_wf_prim : forall p c, wf c -> wf (run_prim p c);
+  il_users : forall c v u, wf c -> In u (uses M c v) -> In (fst u) (alive M c);
+  il_walk : forall c rev rf o, wf c -> In o (walk M rev rf c) -> In o (alive M c)
+}.
+Lemma live_laws_of : StructLaws -> InvLaws -> LiveLaws.
+Proof. intros [A B C0] [D E F]. split; assumption. Qed.
+
 (* obligations of the pattern (documented preconditions): the op it erases / replaces / notifies is
    not already erased, and the erased op has no dangling operand *)
 Definition owners_alive (c : Ct) (o : op) : Prop :=
